@@ -259,6 +259,10 @@ void h_c04_compose(void) {
     for(int i = 0; i < VERIF_N; i++)
         if(i < in->nc) {
             if(req[i] && (in->clen[i] > 0)) V_ASSERT(b_chunks[i].valid == 1, "C04.compose.every_requested_chunk_is_valid_afterwards");
+#ifdef VERIF_C04_EMPTY
+            /* a requested chunk that stores no bytes is complete as soon as the writer reaches its payload position */
+            if(req[i] && n > 0) V_ASSERT(b_chunks[i].valid == 1, "C05.compose.a_requested_chunk_without_bytes_is_valid_after_a_faithful_response");
+#endif
             if(!req[i]) V_ASSERT(b_chunks[i].valid == valid0[i], "C04.compose.no_other_validity_flag_changed");
             V_ASSERT(valid0[i] != 1 || b_chunks[i].valid == 1, "C04.compose.valid_chunks_stay_valid");
         }
@@ -286,12 +290,17 @@ void h_c04_compose(void) {
       for(unsigned k = 0; k < C4_LOG; k++) if(k < m_nw && m_woff[k] == in->b) b_written = true;
       V_ASSERT(!b_req || b_written, "C04.compose.every_byte_of_a_requested_chunk_is_written");
     }
+#ifndef VERIF_C04_EMPTY
     V_ASSERT(m_verdicts == (unsigned)nreq || !fed_ok, "C04.compose.one_verdict_per_requested_chunk");
+#endif
 
     V_COVER(nreq == VERIF_N && len == 1 && n == C4_PAY);                       /* everything missing, one merged range, longest payload */
     V_COVER(nreq == 1 && in->nc == VERIF_N && valid0[0] == 1 && b_chunks[VERIF_N - 1].valid == 1 && valid0[VERIF_N - 1] == 0);   /* first present, last fetched */
     V_COVER(nreq == 1 && in->nc == VERIF_N && valid0[0] == 0 && valid0[VERIF_N - 1] == -1 && b_chunks[0].valid == 1);  /* failed chunk is not re-requested */
     V_COVER(in->max_ranges == 1 && missing0 > nreq && nreq >= 1 && zck->error_state == 0);   /* limit cut the request short (needs N >= 3 or non-adjacent) */
+#ifdef VERIF_C04_EMPTY
+    V_COVER(in->nc == VERIF_N && in->clen[0] == 0 && req[0] && req[VERIF_N - 1] && n > 0 && b_chunks[0].valid == 1 && b_chunks[VERIF_N - 1].valid == 1);   /* empty missing chunk first, then a data chunk */
+#endif
 #ifndef VERIF_C04_ONECALL
     V_COVER(nreq == VERIF_N && cut == (size_t)in->clen[0] && b_chunks[VERIF_N - 1].valid == 1);   /* cut exactly at a chunk border */
     V_COVER(nreq == VERIF_N && cut < (size_t)in->clen[0] && in->clen[0] == C4_SZ && b_chunks[VERIF_N - 1].valid == 1);   /* cut inside the first chunk */
